@@ -3,7 +3,7 @@
 import json, os, shutil, sys
 ID, n, caught, note = sys.argv[1], sys.argv[2], sys.argv[3], sys.argv[4]
 src = "/tmp/seed/%s/out/%s" % (ID, n)
-dst = "/verif/seeded/%s-%s" % (ID, n)
+dst = "/verif/seeded/" + os.environ.get("KEEP_AS", "%s-%s" % (ID, n))
 if os.path.exists(dst):
     shutil.rmtree(dst)
 os.makedirs(dst)
@@ -12,7 +12,7 @@ if os.path.isdir(src + "/demo"):
     shutil.copytree(src + "/demo", dst + "/demo")
 meta = json.load(open(src + "/meta.json"))
 confirm = open(src + "/confirm.log").read().strip().split("\n")[-1] if os.path.exists(src + "/confirm.log") else ""
-meta.update({"breaks_property": ID, "confirmed_by_me": confirm,
+meta.update({"breaks_property": ID[:3], "confirmed_by_me": confirm,
              "what_i_ran": "tools/confirm_seed.sh %s %s in the scratch worktree (patch applies; demo fails with / passes without the patch; "
                            "full cargo test --workspace: only the two always-failing tests fail); then git -C /repo apply patch.diff; "
                            "./check <prop> --tier quick; git -C /repo checkout -- ." % (ID, n),
